@@ -323,6 +323,10 @@ func WritePkgCode(pkg *Archive, dceSelection map[*Decl]struct{}, gls linkname.Go
 				continue // The symbol is not affected by a go:linkname directive.
 			}
 			lines = append(lines, fmt.Sprintf("\t\t\t%s = $linknames[%q];\n", d.RefExpr, impl.String()))
+			if name := d.LinkingName.Name; token.IsExported(name) && !strings.Contains(name, ".") {
+				// Other packages call an exported function through the package object.
+				lines = append(lines, fmt.Sprintf("\t\t\t$pkg.%s = %s;\n", encodeIdent(name), d.RefExpr))
+			}
 		}
 		if len(lines) > 0 {
 			if _, err := writeF(w, minify, "\t\t$pkg.$initLinknames = function() {\n%s\t\t};\n", strings.Join(lines, "")); err != nil {
